@@ -30,6 +30,15 @@ OPEN += [
     ("KF-C05-2", "C05", "C05|distinct_particles_share_label|labels_of=DisplacementMove|driver=GrandCanonical|move=composite_exch", C05_WHAT + " [labels of displacement moves]"),
 ]
 
+FB_WHAT = ("ForceBias and AdaptiveForceBias accept restart_file and write a restart document, but offer no from_dict "
+           "(and their to_dict carries no atoms), so the simulation cannot be rebuilt from the file (mc/fbmc.py)")
+OPEN += [
+    ("KF-C07-1", "C07", "C07|resume_failed|driver=ForceBias|type=NoFromDict|where=-|recovery=inprocess", FB_WHAT),
+    ("KF-C07-2", "C07", "C07|resume_failed|driver=AdaptiveForceBias|type=NoFromDict|where=-|recovery=inprocess", FB_WHAT),
+    ("KF-C08-1", "C08", "C08|cannot_rebuild|class=ForceBias|type=NoFromDict|where=?", FB_WHAT),
+    ("KF-C08-2", "C08", "C08|cannot_rebuild|class=AdaptiveForceBias|type=NoFromDict|where=?", FB_WHAT),
+]
+
 # (property, repo commit, what failed, signatures the check printed on the pre-fix tree)
 FIXED = [
     ("C06", "7361bba", "Driver(seed=0) replaced the seed by a random one: two runs with seed=0 diverged", []),
@@ -54,6 +63,15 @@ FIXED = [
     ("C03", "1dd570a", "per-atom arrays carried only by the exchange template (initial_charges, tags, ...) stayed on the atoms after a vetoed or rejected insertion (and made ASE calculators recompute)",
      ["C03|state_changed_by_nonaccepted_trial|component=arrays:initial_charges:appeared|driver=GrandCanonical|move=exch|verdict=False|constraints=none",
       "C03|state_changed_by_nonaccepted_trial|component=arrays:tags:appeared|driver=GrandCanonical|move=exch|verdict=None|constraints=none"]),
+    ("C08", "3bdfc53", "importing quansino.moves (or any quansino.moves.* module) first in a fresh interpreter raised ImportError (circular import through quansino.mc)",
+     ["C08|import_fails_when_first|module=quansino.moves|type=ImportError", "C08|import_fails_when_first|module=quansino.moves.core|type=ImportError"]),
+    ("C08", "9d46e94", "Isotension, HamiltonianCanonical, their criteria, CompositeExchangeMove and CompositeOperation were not registered: written but not rebuildable",
+     ["C08|cannot_rebuild|class=CompositeOperation|type=KeyError|where=registry.py:get_class",
+      "C07|resume_failed|driver=Isotension|type=KeyError|where=registry.py:get_class|recovery=inprocess"]),
+    ("C08", "e292c5b", "to_dict dropped mask, scale_atoms, max_attempts, Verlet settings, CompositeExchangeMove bias, Isotension external stress; HamiltonianDisplacementMove not rebuildable",
+     ["C08|configuration_lost|class=IsotropicDeformation|attrs=mask", "C08|configuration_lost|class=Verlet|attrs=apply_constraints,dt,max_steps",
+      "C08|configuration_lost|class=DisplacementMove|attrs=max_attempts", "C08|cannot_rebuild|class=HamiltonianDisplacementMove|type=TypeError|where=registry.py:get_typed_class",
+      "C07|resumed_run_diverges|driver=Isobaric|first_diff=arrays|recovery=inprocess"]),
     ("C03", "2c10fec", "CompositeOperation.calculate raised ValueError when summing a (1,3) and an (n,3) result (e.g. Ball + Rotation on a molecule)", []),
 ]
 
